@@ -381,12 +381,14 @@ def list_level(ctx: Ctx, rep: Report) -> None:
     from .c03 import check_subnet_of_shape
 
     rep.rule("R13.1")
-    hs = ctx.func("helpers.subnet_of")
+    from .normalise import normalised as _nrm
+
+    hs = _nrm(ctx, ctx.func("helpers.subnet_of"), "localcalls")  # a one-expression helper (`_subnet_of_any`) is read in place
     rep.instance()
     rep.require(set(hs.params) >= {"tops", "bottoms"}, "helpers.subnet_of lost its tops/bottoms parameters")
     check_subnet_of_shape(ctx, rep, hs, "tops", "bottoms")
     # functions.subnet_of(top, bottom)
-    fs = ctx.func("functions.subnet_of")
+    fs = _nrm(ctx, ctx.func("functions.subnet_of"), "localcalls")
     rep.instance()
     rep.require(len(fs.params) >= 2, "functions.subnet_of lost its parameters")
     top_p, bot_p = fs.params[0], fs.params[1]
